@@ -57,6 +57,9 @@ type vfoScn struct {
 	NoFollow bool   // plain mode with handleMoveErr/handleAskErr switched off in the configuration
 	Fault    string // er | cb | ac injected at request FaultAt ("" = none)
 	FaultAt  int
+	StallOn  bool // hold node StallNode until every command routed elsewhere has executed (the sender is then idle)
+	StallNode int
+	Resume   bool // plain modes: EnableResumeFromBreakPoint, the checkpoint offset is stored on the target
 	CpRetry  bool // resumable run whose FIRST checkpoint flush fails on the checkpoint key's redirect and is retried
 }
 
@@ -76,6 +79,7 @@ type vfoResult struct {
 	Execs    []vfdoubles.ClusterExec
 	Arrivals map[int]int
 	Stalled  bool
+	Ends     map[int]int64
 }
 
 func vfoRun(scn *vfoScn) (*vfoResult, error) {
@@ -110,13 +114,13 @@ func vfoRun(scn *vfoScn) (*vfoResult, error) {
 
 	cfg := RedisOutputConfig{
 		InputName: "vfc19", CheckpointName: "vfcp", RunId: "rid", CanTransaction: scn.Txn,
-		EnableResumeFromBreakPoint: scn.CpRetry, TargetDb: -1,
+		EnableResumeFromBreakPoint: scn.CpRetry || scn.Resume, TargetDb: -1,
 		BatchCmdCount: uint(scn.BC), BatchBufferSize: 1 << 30,
 		BatchTicker: 15 * time.Millisecond, KeepaliveTicker: time.Hour, UpdateCheckpointTicker: time.Hour,
 		ReplayPipeline: scn.Pipeline, ReplayRdbParallel: 1,
 		Stats: config.OutputStats{DisableLog: true},
 	}
-	if scn.CpRetry {
+	if scn.CpRetry || scn.Resume {
 		cfg.UpdateCheckpointTicker = 25 * time.Millisecond
 	}
 	cfg.Redis.Type = config.RedisTypeCluster
@@ -127,9 +131,11 @@ func vfoRun(scn *vfoScn) (*vfoResult, error) {
 
 	var stream []byte
 	ids := make([]int, 0, len(scn.Cmds))
+	ends := map[int]int64{} // command id -> stream offset after it
 	for _, c := range scn.Cmds {
 		stream = append(stream, vfoEncode("set", scn.Keys[c.Key], fmt.Sprintf("#%d", c.ID))...)
 		ids = append(ids, c.ID)
+		ends[c.ID] = int64(len(stream))
 	}
 	ctx, cancel := context.WithCancel(context.Background())
 	defer cancel()
@@ -154,6 +160,26 @@ func vfoRun(scn *vfoScn) (*vfoResult, error) {
 				}
 				time.Sleep(500 * time.Microsecond)
 			}
+		}()
+	}
+	if scn.StallOn {
+		// the node that will answer MOVED is slow: its answers arrive when the sender has already
+		// dispatched everything and sits idle in its select loop
+		d.Stall(scn.StallNode)
+		var others []int
+		for _, c := range scn.Cmds {
+			if vfdoubles.ClusterSlot(scn.Keys[c.Key])*3/16384 != scn.StallNode {
+				others = append(others, c.ID)
+			}
+		}
+		go func() {
+			for i := 0; i < 40000 && !d.AllExecuted(others); i++ {
+				time.Sleep(250 * time.Microsecond)
+			}
+			for i := 0; i < 40000 && d.HeldCount() == 0; i++ {
+				time.Sleep(250 * time.Microsecond)
+			}
+			d.Unstall(scn.StallNode)
 		}()
 	}
 	res := &vfoResult{}
@@ -220,10 +246,11 @@ func vfoRun(scn *vfoScn) (*vfoResult, error) {
 	}
 	res.Trace, res.Execs, _ = d.Snapshot()
 	res.Arrivals = d.Arrivals()
-	if os.Getenv("VERIF_DEBUG") != "" && scn.CpRetry {
+	res.Ends = ends
+	if os.Getenv("VERIF_DEBUG") != "" && (scn.CpRetry || (scn.Resume && scn.NoFollow)) {
 		fmt.Printf("VFDEBUG cp-retry err=%v final=%s\n  trace=%s\n", res.Err, res.Final, strings.Join(res.Trace, " "))
 		for _, e := range res.Execs {
-			fmt.Printf("  exec node=%d id=%d keys=%v field=%s\n", e.Node, e.ID, e.Keys, e.Field)
+			fmt.Printf("  exec node=%d id=%d keys=%v field=%s value=%s\n", e.Node, e.ID, e.Keys, e.Field, e.Value)
 		}
 	}
 	return res, nil
@@ -310,6 +337,26 @@ func vfoMonitor(scn *vfoScn, res *vfoResult) []vfoViol {
 			}
 		}
 	}
+	// the position stored on the target must not cover a command that never took effect: a restart
+	// resumes behind it (silent loss)
+	maxCp := int64(-1)
+	for _, e := range res.Execs {
+		if len(e.Keys) == 1 && e.Keys[0] == "vfcp" && strings.HasSuffix(e.Field, "_offset") {
+			var n int64
+			if _, err := fmt.Sscan(e.Value, &n); err == nil && n > maxCp {
+				maxCp = n
+			}
+		}
+	}
+	if maxCp >= 0 {
+		for _, c := range scn.Cmds {
+			if res.Ends[c.ID] <= maxCp && count[c.ID] == 0 {
+				out = append(out, vfoViol{"checkpoint-ahead-of-execution", fmt.Sprintf("stored offset %d covers cmd %d (ends at %d), which never took effect; run ended with %s (%v)",
+					maxCp, c.ID, res.Ends[c.ID], res.Final, res.Err)})
+				break
+			}
+		}
+	}
 	if res.Stalled {
 		out = append(out, vfoViol{"sender-stalled", fmt.Sprintf("sendAof neither finished the stream nor returned (err=%v)", res.Err)})
 	}
@@ -357,6 +404,9 @@ func vfoGen(r *vfutil.Rand, name string, force string) *vfoScn {
 			scn.BC = r.Range(1, 2)
 			scn.Cross = false
 		}
+	}
+	if !scn.Txn && !scn.CpRetry && (force == "nofollow-pipe" || force == "nofollow-block" || r.Bool()) {
+		scn.Resume = true
 	}
 	var tags []string
 	if scn.CpRetry {
@@ -424,6 +474,10 @@ func vfoGen(r *vfutil.Rand, name string, force string) *vfoScn {
 		at += r.Intn(n/2 + 1)
 		if force != "" {
 			at = r.Intn(n / 2)
+		}
+		if force == "nofollow-pipe" {
+			at = 0
+			scn.StallOn, scn.StallNode = true, own
 		}
 		if !scn.Txn && !scn.NoFollow && r.Bool() {
 			scn.During = append(scn.During, vfdoubles.Sched{At: at, Ev: vfdoubles.MigEv{Kind: "g", Slot: slot, Dst: dst}})
